@@ -8,6 +8,7 @@ DESIGN.md, C02/C03: partial).
 -/
 import DnaModel.Proofs.SolverPure
 import DnaModel.Props.C06
+import DnaModel.Props.C12
 set_option linter.unusedVariables false
 set_option linter.unusedSimpArgs false
 set_option linter.unusedSectionVars false
@@ -112,5 +113,362 @@ theorem local_optimizers_preserve [LawfulScore K] (ops : SpecOps σ K) (ev) (hp 
   · obtain ⟨t, st', h, _, _, hf, hm, _⟩ := C06.optimizeExhaustive_max ops ev hp F s st vs hvs hs hbp
     exact ⟨t, st', h, hf, hm⟩
   · exact optimizeRandom_spec ops ev hp sett F s st hs
+
+/-! ### the lift from the local problems to the whole problem
+
+`optimize()` works on local problems: for every location flagged by an objective it localizes the
+mutation space, localizes **every** constraint to the span of the multi-variant choices, re-initialises
+the localized constraints on the local problem and lets one of the two local optimisers run.  The
+theorems below compose the local guarantee (`optimizeRandom_spec`, `optExhaustiveLoop_feasible`) with
+
+* the fact that every candidate differs from the current sequence only inside that span
+  (mutation-space theorems of C15, through the closedness invariant of C12), and
+* `LocalSound` — the first clause of C08 — for every constraint the solver evaluates,
+
+into the statement of C02 for the whole problem: **if every (non-enforced) constraint passes before
+`optimize()`, every one passes after it, whatever the outcome, the settings and the tape.** -/
+
+/-- `localized` (without `with_righthand`) and `initialized_on_problem` are pure total functions
+    `lz` / `ini` of their arguments -/
+structure PureObj (ops : SpecOps σ K) (lz : σ → Loc → Seq → Option σ) (ini : σ → Seq → Role → σ) : Prop where
+  loc : ∀ c l s k, ∃ r, ops.localize c l none s k = .ok r ∧ r.map Prod.fst = lz c l s
+  init : ∀ c s r k, ∃ d, ops.initOn c s r k = .ok (ini c s r, d)
+
+/-- `t` has the length of `s` and agrees with it outside `[a, b)` -/
+def AgreeOut (a b : Nat) (s t : Seq) : Prop :=
+  t.length = s.length ∧ ∀ i : Nat, (i < a ∨ b ≤ i) → t[i]? = s[i]?
+
+/-- **first clause of C08** for one constraint `c`, as the solver uses it: `c` passes on `s`; `t`
+    differs from `s` only inside the window `[a, b)`; the constraint localized to the window (on `s`)
+    and re-initialised on the local problem (whose sequence is `s`) passes on `t`, or there is no
+    localized constraint at all.  Then `c` passes on `t`. -/
+def LocalSound (ev : σ → Seq → Eval K) (lz : σ → Loc → Seq → Option σ) (ini : σ → Seq → Role → σ) (c : σ) : Prop :=
+  ∀ (a b : Nat) (s t : Seq), (ev c s).passes = true → AgreeOut a b s t →
+    (∀ c1, lz c ⟨a, b, 0⟩ s = some c1 → (ev (ini c1 s .constraint) t).passes = true) →
+    (ev c t).passes = true
+
+theorem localizeAt_pure (ops : SpecOps σ K) (lz) (ini) (hq : PureObj ops lz ini) (c : σ) (l : Loc) (s : Seq) (st : St σ K) :
+    ∃ st', localizeAt ops c l none s st = (.ok (lz c l s), st') := by
+  obtain ⟨r, h1, h2⟩ := hq.loc c l s st.nAlloc
+  simp only [localizeAt, h1]
+  cases r with
+  | none => exact ⟨_, by rw [← h2]; rfl⟩
+  | some p => exact ⟨_, by rw [← h2]; rfl⟩
+
+theorem localizeAll_pure (ops : SpecOps σ K) (lz) (ini) (hq : PureObj ops lz ini) (l : Loc) (s : Seq) (cs : List σ) (st : St σ K) :
+    ∃ st', localizeAll ops s l cs st = (.ok (cs.filterMap (fun c => lz c l s)), st') := by
+  induction cs generalizing st with
+  | nil => exact ⟨st, rfl⟩
+  | cons c cs ih =>
+    obtain ⟨st1, h1⟩ := localizeAt_pure ops lz ini hq c l s st
+    obtain ⟨st2, h2⟩ := ih st1
+    simp only [localizeAll, h1, h2, List.filterMap_cons]
+    cases lz c l s with
+    | none => exact ⟨st2, rfl⟩
+    | some x => exact ⟨st2, rfl⟩
+
+theorem initAll_pure (ops : SpecOps σ K) (lz) (ini) (hq : PureObj ops lz ini) (s : Seq) (role : Role) (cs : List σ) (st : St σ K) :
+    ∃ st', initAll ops s role cs st = (.ok (cs.map (fun c => ini c s role)), st') := by
+  induction cs generalizing st with
+  | nil => exact ⟨st, rfl⟩
+  | cons c cs ih =>
+    obtain ⟨d, hd⟩ := hq.init c s role st.nAlloc
+    obtain ⟨st2, h2⟩ := ih (inherit { st with nAlloc := st.nAlloc + 1 } c (ini c s role) d)
+    exact ⟨st2, by simp only [initAll, initAt, hd, h2, List.map_cons]⟩
+
+theorem newLocal_pure (ops : SpecOps σ K) (lz) (ini) (hq : PureObj ops lz ini) (s : Seq) (cs os : List σ) (sp : Space) (st : St σ K) :
+    ∃ LF st', newLocal ops s cs os sp st = (.ok LF, st') ∧
+      LF.constraints = cs.map (fun c => ini c s .constraint) ∧
+      LF.objectives = os.map (fun c => ini c s .objective) ∧ LF.space = sp := by
+  obtain ⟨st1, h1⟩ := initAll_pure ops lz ini hq s .constraint cs (logSeq s st)
+  obtain ⟨st2, h2⟩ := initAll_pure ops lz ini hq s .objective os st1
+  exact ⟨{ constraints := cs.map (fun c => ini c s .constraint), objectives := os.map (fun c => ini c s .objective),
+            space := sp, seqBefore := s }, st2, by simp only [newLocal, h1, h2], rfl, rfl, rfl⟩
+
+/-- the exhaustive optimisation loop only ever keeps feasible candidates as its running best -/
+theorem optExhaustiveLoop_feasible (ops : SpecOps σ K) (ev) (hp : PureEval ops ev) (F : Frame σ) (bp : Option K)
+    (vs : List Seq) (bestScore : K) (bestSeq cur : Seq) (st : St σ K) (hb : feasible ops ev F bestSeq = true)
+    (b cur' : Seq) (st' : St σ K) (h : optExhaustiveLoop ops F bp vs bestScore bestSeq cur st = (.ok b, cur', st')) :
+    feasible ops ev F b = true := by
+  induction vs generalizing bestScore bestSeq cur st with
+  | nil =>
+    simp only [optExhaustiveLoop, Prod.mk.injEq, Except.ok.injEq] at h
+    rw [← h.1]; exact hb
+  | cons v vs ih =>
+    simp only [optExhaustiveLoop] at h
+    obtain ⟨st1, h1, _⟩ := allConstraintsPass_pure ops ev hp F v (logSeq v st)
+    rw [h1] at h
+    cases hf : feasible ops ev F v with
+    | false =>
+      rw [hf] at h
+      exact ih _ _ _ _ hb h
+    | true =>
+      rw [hf] at h
+      obtain ⟨st2, h2, _⟩ := objectiveScoresSum_pure ops ev hp F v st1
+      simp only [h2] at h
+      split at h
+      · split at h
+        · simp only [Prod.mk.injEq, Except.ok.injEq] at h
+          rw [← h.1]; exact hf
+        · exact ih _ _ _ _ hf h
+      · exact ih _ _ _ _ hb h
+
+/-- `optimize_by_exhaustive_search()`: a successful return is on a feasible sequence; any other
+    outcome from an infeasible start leaves the sequence alone -/
+theorem optimizeExhaustive_feasible (ops : SpecOps σ K) (ev) (hp : PureEval ops ev) (F : Frame σ) (s : Seq) (st : St σ K)
+    (u : Unit) (t : Seq) (st' : St σ K) (h : optimizeExhaustive ops F s st = (.ok u, t, st')) :
+    feasible ops ev F t = true := by
+  simp only [optimizeExhaustive] at h
+  obtain ⟨st1, h1, _⟩ := allConstraintsPass_pure ops ev hp F s st
+  rw [h1] at h
+  cases hf : feasible ops ev F s with
+  | false =>
+    rw [hf] at h
+    obtain ⟨r, st2, h2, _⟩ := constraintsEvaluations_pure ops ev hp s F.constraints st1
+    simp [h2] at h
+  | true =>
+    rw [hf] at h
+    obtain ⟨st2, h2, _⟩ := objectiveScoresSum_pure ops ev hp F s st1
+    simp only [h2] at h
+    split at h
+    · simp at h
+    · split at h
+      · simp at h
+      · rename_i bestSeq cur st3 hloop
+        simp only [Prod.mk.injEq, Except.ok.injEq] at h
+        rw [← h.2.1]
+        exact optExhaustiveLoop_feasible ops ev hp F _ _ _ _ _ _ hf _ _ _ hloop
+
+/-- `optimize_by_random_mutations()`: a successful return is on a feasible sequence -/
+theorem optimizeRandom_feasible [LawfulScore K] (ops : SpecOps σ K) (ev) (hp : PureEval ops ev) (sett : Settings) (F : Frame σ)
+    (s : Seq) (st : St σ K) (u : Unit) (t : Seq) (st' : St σ K) (h : optimizeRandom ops sett F s st = (.ok u, t, st')) :
+    feasible ops ev F t = true := by
+  cases hf : feasible ops ev F s with
+  | false =>
+    obtain ⟨st2, h2⟩ := optimizeRandom_infeasible ops ev hp sett F s st hf
+    rw [h2] at h; simp at h
+  | true =>
+    obtain ⟨r, t2, st2, h2, hres⟩ := optimizeRandom_spec ops ev hp sett F s st hf
+    rw [h2] at h
+    simp only [Prod.mk.injEq] at h
+    obtain ⟨rfl, rfl, rfl⟩ := h
+    exact (hres u rfl).1
+
+/-- every multi-variant choice of a well-formed space lies inside its `choices_span` -/
+theorem span_bounds (n : Nat) (mc : List Choice) (h : C15.ChoicesFit n mc) (x y : Choice)
+    (hx : mc.head? = some x) (hy : mc.getLast? = some y) : ∀ c ∈ mc, x.start ≤ c.start ∧ c.stop ≤ y.stop := by
+  induction mc generalizing x with
+  | nil => simp at hx
+  | cons d rest ih =>
+    obtain ⟨h1, h2, h3, h4, h5, h6⟩ := h
+    simp only [List.head?_cons, Option.some.injEq] at hx
+    subst hx
+    intro c hc
+    cases rest with
+    | nil =>
+      simp only [List.getLast?_singleton, Option.some.injEq] at hy
+      subst hy
+      simp only [List.mem_singleton] at hc
+      subst hc
+      exact ⟨Nat.le_refl _, Nat.le_refl _⟩
+    | cons e rest' =>
+      rw [List.getLast?_cons_cons] at hy
+      have hyin : y ∈ e :: rest' := List.mem_of_getLast? hy
+      rcases List.mem_cons.1 hc with rfl | hc'
+      · have := h5 y hyin
+        have hy2 := (C15.fits_mem n _ h6 y hyin).2.1
+        exact ⟨Nat.le_refl _, by omega⟩
+      · have := ih h6 e rfl hy c hc'
+        have he := h5 c hc'
+        exact ⟨by omega, this.2⟩
+
+/-- candidates of a space differ from the current sequence only inside its `choices_span` -/
+theorem closed_agreeOut (n : Nat) (sp : Space) (a b : Nat) (s0 : Seq) (hn : s0.length = n)
+    (hmc : C15.ChoicesFit n sp.multichoices) (hspan : sp.choicesSpan = some (a, b)) :
+    C12.Closed (AgreeOut a b s0) sp := by
+  have hb : ∀ c ∈ sp.multichoices, a ≤ c.start ∧ c.stop ≤ b := by
+    simp only [Space.choicesSpan] at hspan
+    split at hspan
+    · rename_i x y hx hy
+      simp only [Option.some.injEq, Prod.mk.injEq] at hspan
+      obtain ⟨rfl, rfl⟩ := hspan
+      exact span_bounds n _ hmc x y hx hy
+    · simp at hspan
+  constructor
+  · intro s vs hs hvs v hv
+    have hen := C15.allVariants_enumerates sp s vs (by rw [hs.1, hn]; exact C12.mcfits_of_fit n _ hmc) hvs
+    obtain ⟨hl, _, hout⟩ := (hen.2.2.2 v).1 hv
+    refine ⟨hl.trans hs.1, ?_⟩
+    intro i hi
+    rw [← hs.2 i hi]
+    apply hout
+    intro c hc
+    have := hb c hc
+    omega
+  · intro k s t r t' hs hm
+    obtain ⟨hl, chosen, _, hsubc, _, _, hout⟩ :=
+      C15.applyRandomMutations_spec sp k s t t' r (by rw [hs.1, hn]; exact hmc) hm
+    refine ⟨hl.trans hs.1, ?_⟩
+    intro i hi
+    rw [← hs.2 i hi]
+    apply hout
+    intro c hc
+    have := hb c (hsubc c hc)
+    omega
+
+/-- what the lift needs from the problem -/
+structure LiftHyp (ops : SpecOps σ K) (ev : σ → Seq → Eval K) (lz : σ → Loc → Seq → Option σ)
+    (ini : σ → Seq → Role → σ) (F : Frame σ) (n : Nat) : Prop where
+  pureEval : PureEval ops ev
+  pureObj : PureObj ops lz ini
+  /-- the multi-variant choices of every localization of the space tile (C04: a theorem for constructed spaces) -/
+  localFit : ∀ a b : Int, C15.ChoicesFit n (F.space.localized a b).multichoices
+  /-- first clause of C08 for every constraint the solver evaluates -/
+  sound : ∀ c ∈ F.constraints, ops.enforced c = false → LocalSound ev lz ini c
+  /-- a localized, re-initialised copy of a non-enforced constraint is not presumed enforced either -/
+  enforcedKept : ∀ c ∈ F.constraints, ops.enforced c = false → ∀ l s c1, lz c l s = some c1 →
+    ops.enforced (ini c1 s .constraint) = false
+
+/-- the objectives a local problem of `optimize_objective` is given -/
+def localObjectives (ops : SpecOps σ K) (lz : σ → Loc → Seq → Option σ) (ini : σ → Seq → Role → σ) (F : Frame σ)
+    (a b : Nat) (s : Seq) : List σ :=
+  ((F.objectives.filter (fun o => !Score.eq (ops.boost o) (Score.zero : K))).filterMap (fun o => lz o ⟨a, b, 0⟩ s)).map
+    (fun o => ini o s .objective)
+
+/-- the constraints a local problem of `optimize_objective` is given: every constraint, localized -/
+def localConstraints (lz : σ → Loc → Seq → Option σ) (ini : σ → Seq → Role → σ) (F : Frame σ)
+    (a b : Nat) (s : Seq) : List σ :=
+  (F.constraints.filterMap (fun c => lz c ⟨a, b, 0⟩ s)).map (fun c => ini c s .constraint)
+
+/-- one location of `optimize_objective`, decomposed: either the sequence is left alone, or it is
+    the result of a successful local optimisation of the local problem described here -/
+theorem optimizeLocation_cases (ops : SpecOps σ K) (lz ini) (hq : PureObj ops lz ini) (sett : Settings) (F : Frame σ)
+    (location : Loc) (s : Seq) (st : St σ K) :
+    (optimizeLocation ops sett F location s st).2.1 = s ∨
+    ∃ (a b : Nat) (LF : Frame σ) (u : Unit) (ls : Seq) (st3 st5 : St σ K),
+      (F.space.localized location.start location.stop).choicesSpan = some (a, b) ∧
+      LF.constraints = localConstraints lz ini F a b s ∧
+      LF.objectives = localObjectives ops lz ini F a b s ∧
+      LF.space = F.space.localized location.start location.stop ∧
+      localOptimize ops sett LF s st3 = (.ok u, ls, st5) ∧
+      (optimizeLocation ops sett F location s st).2.1 = ls := by
+  simp only [optimizeLocation]
+  split
+  · exact Or.inl rfl
+  · split
+    · exact Or.inl rfl
+    · rename_i a b hspan
+      obtain ⟨st1, h1⟩ := localizeAll_pure ops lz ini hq ⟨a, b, 0⟩ s F.constraints st
+      simp only [h1]
+      obtain ⟨st2, h2⟩ := localizeAll_pure ops lz ini hq ⟨a, b, 0⟩ s
+        (F.objectives.filter (fun o => !Score.eq (ops.boost o) (Score.zero : K))) st1
+      simp only [h2]
+      obtain ⟨LF, st3, h3, hLFc, hLFo, hLFs⟩ := newLocal_pure ops lz ini hq s
+        (F.constraints.filterMap (fun c => lz c ⟨a, b, 0⟩ s))
+        ((F.objectives.filter (fun o => !Score.eq (ops.boost o) (Score.zero : K))).filterMap (fun c => lz c ⟨a, b, 0⟩ s))
+        (F.space.localized location.start location.stop) st2
+      simp only [h3]
+      cases hres : localOptimize ops sett LF s st3 with
+      | mk r rest =>
+        obtain ⟨ls, st5⟩ := rest
+        cases r with
+        | error e => exact Or.inl rfl
+        | ok u => exact Or.inr ⟨a, b, LF, u, ls, st3, st5, hspan, hLFc, hLFo, hLFs, hres, rfl⟩
+
+/-- the result of a local optimisation differs from its start only inside the `choices_span` -/
+theorem localOptimize_agree (ops : SpecOps σ K) (sett : Settings) (LF : Frame σ) (n a b : Nat) (s : Seq) (st : St σ K)
+    (hn : s.length = n) (hfit : C15.ChoicesFit n LF.space.multichoices) (hspan : LF.space.choicesSpan = some (a, b)) :
+    AgreeOut a b s (localOptimize ops sett LF s st).2.1 := by
+  have hcl := closed_agreeOut n _ a b s hn hfit hspan
+  have hag0 : AgreeOut a b s s := ⟨rfl, fun _ _ => rfl⟩
+  simp only [localOptimize]
+  split
+  · exact C12.optimizeExhaustive_inv _ ops LF s st hcl hag0
+  · exact C12.optimizeRandom_inv _ ops sett LF s st hcl hag0
+
+/-- one location of `optimize_objective`: global feasibility survives -/
+theorem optimizeLocation_feasible [LawfulScore K] (ops : SpecOps σ K) (ev lz ini) (sett : Settings) (F : Frame σ) (n : Nat)
+    (H : LiftHyp ops ev lz ini F n) (location : Loc) (s : Seq) (st : St σ K) (hn : s.length = n)
+    (hs : feasible ops ev F s = true) :
+    feasible ops ev F (optimizeLocation ops sett F location s st).2.1 = true ∧
+    (optimizeLocation ops sett F location s st).2.1.length = n := by
+  rcases optimizeLocation_cases ops lz ini H.pureObj sett F location s st with h | ⟨a, b, LF, u, ls, st3, st5, hspan, hLFc, hLFo, hLFs, hres, hout⟩
+  · rw [h]; exact ⟨hs, hn⟩
+  · rw [hout]
+    have key : AgreeOut a b s ls := by
+      have := localOptimize_agree ops sett LF n a b s st3 hn (by rw [hLFs]; exact H.localFit _ _) (by rw [hLFs]; exact hspan)
+      rw [hres] at this; exact this
+    have hlf : feasible ops ev LF ls = true := by
+      simp only [localOptimize] at hres
+      split at hres
+      · exact optimizeExhaustive_feasible ops ev H.pureEval LF s st3 u ls st5 hres
+      · exact optimizeRandom_feasible ops ev H.pureEval sett LF s st3 u ls st5 hres
+    refine ⟨?_, key.1.trans hn⟩
+    -- every non-enforced constraint of the whole problem passes on `ls`
+    simp only [feasible, List.all_eq_true, List.mem_filter, Bool.not_eq_true', and_imp] at hs hlf ⊢
+    intro c hc henf
+    apply H.sound c hc henf a b s ls (hs c hc henf) key
+    intro c1 hc1
+    apply hlf
+    · rw [hLFc, localConstraints, List.mem_map]
+      exact ⟨c1, List.mem_filterMap.2 ⟨c, hc, hc1⟩, rfl⟩
+    · exact H.enforcedKept c hc henf _ _ _ hc1
+
+theorem optimizeLocations_feasible [LawfulScore K] (ops : SpecOps σ K) (ev lz ini) (sett : Settings) (F : Frame σ) (n : Nat)
+    (H : LiftHyp ops ev lz ini F n) (locs : List Loc) (s : Seq) (st : St σ K) (hn : s.length = n)
+    (hs : feasible ops ev F s = true) :
+    feasible ops ev F (optimizeLocations ops sett F locs s st).2.1 = true ∧
+    (optimizeLocations ops sett F locs s st).2.1.length = n := by
+  induction locs generalizing s st with
+  | nil => exact ⟨hs, hn⟩
+  | cons l ls ih =>
+    simp only [optimizeLocations]
+    have key := optimizeLocation_feasible ops ev lz ini sett F n H l s st hn hs
+    cases h : optimizeLocation ops sett F l s st with
+    | mk r rest =>
+      obtain ⟨s1, st1⟩ := rest
+      rw [h] at key
+      cases r with
+      | error e => exact key
+      | ok u => exact ih s1 st1 key.2 key.1
+
+theorem optimizeObjective_feasible [LawfulScore K] (ops : SpecOps σ K) (ev lz ini) (sett : Settings) (F : Frame σ) (n : Nat)
+    (H : LiftHyp ops ev lz ini F n) (o : σ) (s : Seq) (st : St σ K) (hn : s.length = n)
+    (hs : feasible ops ev F s = true) :
+    feasible ops ev F (optimizeObjective ops sett F o s st).2.1 = true ∧
+    (optimizeObjective ops sett F o s st).2.1.length = n := by
+  simp only [optimizeObjective]
+  split
+  · exact ⟨hs, hn⟩
+  · split
+    · exact ⟨hs, hn⟩
+    · split
+      · exact ⟨hs, hn⟩
+      · exact optimizeLocations_feasible ops ev lz ini sett F n H _ s _ hn hs
+
+/-- **C02 for the whole problem.**  For pure total specifications whose constraints have a sound
+    localization (first clause of C08), on a well-formed mutation space: if every constraint that the
+    problem evaluates passes before `optimize()`, every one of them passes on `problem.sequence`
+    after it — whether it returns or raises, for every objective mix, setting and random tape. -/
+theorem optimize_preserves_feasible [LawfulScore K] (ops : SpecOps σ K) (ev lz ini) (sett : Settings) (F : Frame σ) (n : Nat)
+    (H : LiftHyp ops ev lz ini F n) (s : Seq) (st : St σ K) (hn : s.length = n)
+    (hs : feasible ops ev F s = true) :
+    feasible ops ev F (optimize ops sett F s st).2.1 = true := by
+  simp only [optimize]
+  generalize F.objectives.filter (fun o => !ops.passive o && !Score.eq (ops.boost o) (Score.zero : K)) = os
+  suffices h : feasible ops ev F (optimizeEach ops sett F os s st).2.1 = true ∧
+      (optimizeEach ops sett F os s st).2.1.length = n from h.1
+  induction os generalizing s st with
+  | nil => exact ⟨hs, hn⟩
+  | cons o os ih =>
+    simp only [optimizeEach]
+    have key := optimizeObjective_feasible ops ev lz ini sett F n H o s st hn hs
+    cases h : optimizeObjective ops sett F o s st with
+    | mk r rest =>
+      obtain ⟨s1, st1⟩ := rest
+      rw [h] at key
+      cases r with
+      | error e => exact key
+      | ok u => exact ih s1 st1 key.2 key.1
 
 end Dna.C02
